@@ -397,6 +397,11 @@ Fixpoint pop_n (k : nat) (nl reserved : list node) : option (list node * list no
 
 Definition count_agents (a : list bool) : nat := List.length (filter (fun b => b) a).
 
+(* the nodes of the allocation that may be used: all of them, or -- when the
+   pilot has backup nodes -- those answering the ssh probe *)
+Definition accessible (backup : Z) (acc : list access) (nl : list node) : list node :=
+  if backup =? 0 then nl else probe acc 0 nl.
+
 Definition filter_nodes (c : cfg) (acc : list access) (r : rminfo) : err + rminfo :=
   match (if r_backup r =? 0 then inr (r_nodes r)
          else match probe acc 0 (r_nodes r) with
@@ -424,7 +429,9 @@ Definition filter_nodes (c : cfg) (acc : list access) (r : rminfo) : err + rminf
     end
   end.
 
-Definition init_from_scratch (c : cfg) (e : rmenv) (acc : list access) : err + rminfo :=
+(* _init_from_scratch up to the call of _filter_nodes: the RMInfo holding the
+   whole allocation (all nodes the batch system gave, blocked slots marked) *)
+Definition pre_filter (c : cfg) (e : rmenv) : err + rminfo :=
   match rm_init c e with
   | inl er => inl er
   | inr st =>
@@ -441,11 +448,16 @@ Definition init_from_scratch (c : cfg) (e : rmenv) (acc : list access) : err + r
       | inl er => inl er
       | inr rn =>
         if zlen nl' <? rn then inl AssertionError
-        else filter_nodes c acc
-               (mkInfo rn (c_cores c) (c_gpus c) (c_backup c) cpn gpn (threads_per_core c)
-                       (c_lfs c) (c_mem c) (c_nparts c) nl' [] [] [])
+        else inr (mkInfo rn (c_cores c) (c_gpus c) (c_backup c) cpn gpn (threads_per_core c)
+                         (c_lfs c) (c_mem c) (c_nparts c) nl' [] [] [])
       end
     end
+  end.
+
+Definition init_from_scratch (c : cfg) (e : rmenv) (acc : list access) : err + rminfo :=
+  match pre_filter c e with
+  | inl er => inl er
+  | inr r0 => filter_nodes c acc r0
   end.
 
 (* RMInfo._verify (the asserts that can fail on the modelled fields) *)
